@@ -18,7 +18,7 @@ use crate::{
     json::J,
     world::{MemAccount, MemDb, compare_bundles},
 };
-use grevm::{ParallelState, ParallelTakeBundle, verif::drivers::cache_race};
+use grevm::{ParallelState, ParallelTakeBundle, verif::drivers::{cache_race, cache_race_accounts}};
 use revm::{Database, DatabaseCommit, DatabaseRef};
 use revm_database::{DatabaseCommitExt, State, StateBuilder, states::bundle_state::BundleRetention};
 use revm_primitives::{Address, KECCAK_EMPTY, U256};
@@ -444,6 +444,48 @@ fn race_case(rng: &mut Rng, strategy: Strategy, sname: &str, seed: u64, f1_shape
     (description, verdict, report.stall, session)
 }
 
+/// Account-fill race: the account is NOT cached; readers load it through the worker view (database
+/// fetch, then publication of the fetched entry) while the commit thread applies changes to it.
+/// A reader may return any committed prefix value (it is validated later); what the state serves
+/// afterwards must be what revm's `State` serves after the same commits: a late publication of the
+/// fetched pre-block entry must not replace the committed one.
+fn race_accounts_case(rng: &mut Rng, strategy: Strategy, sname: &str, seed: u64) -> (String, Option<String>, Option<String>) {
+    let db = gen_db(rng);
+    let mut p = ParallelState::new(db.clone(), true, false);
+    let mut s = StateBuilder::new().with_bundle_update().with_database_ref(&db).build();
+    let mut prefix_values = vec![show_info(&s.basic(addr(0)).unwrap())];
+    let n_commits = 1 + rng.below(3);
+    let mut changes_list = Vec::new();
+    let mut desc = Vec::new();
+    for c in 0..n_commits {
+        let mut changes = EvmState::default();
+        let pre = s.basic(addr(0)).unwrap();
+        let cur: Vec<U256> = (0..N_SLOT).map(|k| s.storage(addr(0), U256::from(k)).unwrap()).collect();
+        let (account, label) = gen_change(rng, &pre, |k| cur[k]);
+        desc.push(format!("commit {c}: {label}"));
+        changes.insert(addr(0), account);
+        s.commit(changes.clone());
+        prefix_values.push(show_info(&s.basic(addr(0)).unwrap()));
+        changes_list.push(changes);
+    }
+    let reads: Vec<Address> = (0..1 + rng.below(3)).map(|_| addr(0)).collect();
+    desc.push(format!("{} account readers, cache cold", reads.len()));
+    let ctrl = Ctrl::new(strategy, seed, reads.len() + 1);
+    ctrl.install();
+    let seen = cache_race_accounts(&mut p, &reads, changes_list);
+    let report = ctrl.finish();
+    let description = format!("{sname} schedule; {}", desc.join("; "));
+    let mut verdict = None;
+    for (k, v) in seen.iter().enumerate() {
+        let shown = show_info(v);
+        if !prefix_values.contains(&shown) {
+            verdict = Some(format!("account reader {k} returned {shown}, which no committed prefix holds ({prefix_values:?})"));
+        }
+    }
+    let verdict = verdict.or_else(|| compare_reads(&mut p, &mut s, "after the account race"));
+    (description, verdict, report.stall)
+}
+
 pub fn cmd_cache_race(args: &Args) -> J {
     let seed = args.num("seed", 1);
     let cases = args.num("cases", 300);
@@ -455,6 +497,7 @@ pub fn cmd_cache_race(args: &Args) -> J {
     let mut stalls = Vec::new();
     let mut session = String::new();
     let mut descs: Vec<String> = Vec::new();
+    let mut account_cases = 0usize;
     let gmodel = args.str("gmodel", "/verif/lean/.lake/build/bin/gmodel");
     let d = |allowed, stop_site, stop_arg0| Directive { allowed, stop_site, stop_arg0 };
     for case in 0..cases {
@@ -474,9 +517,27 @@ pub fn cmd_cache_race(args: &Args) -> J {
             }
         };
         let cseed = rng.next();
-        let (desc, verdict, stall, sess) = race_case(&mut rng, strategy, sname, cseed, f1);
-        session.push_str(&sess);
-        descs.push(desc.clone());
+        // every fourth case races ACCOUNT fills instead of storage fills (every 28th under the
+        // directed schedule: reader held between its database fetch and the publication of the
+        // fetched entry while the commit thread runs to the end)
+        let account_case = case % 4 == 3;
+        let (desc, verdict, stall) = if account_case {
+            let (strategy, sname) = if case % 28 == 3 {
+                (
+                    Strategy::Directed(vec![d(Sel::Role(0, 0), "cache_fill_basic", None), d(Sel::Role(2, 0), "never", None), d(Sel::All, "never", None)]),
+                    "directed(account: fetch | commits | publish)",
+                )
+            } else {
+                (strategy, sname)
+            };
+            account_cases += 1;
+            race_accounts_case(&mut rng, strategy, sname, cseed)
+        } else {
+            let (desc, verdict, stall, sess) = race_case(&mut rng, strategy, sname, cseed, f1);
+            session.push_str(&sess);
+            descs.push(desc.clone());
+            (desc, verdict, stall)
+        };
         distinct.insert(desc.clone());
         if samples.len() < 3 {
             samples.push(J::s(desc.clone()));
@@ -490,7 +551,7 @@ pub fn cmd_cache_race(args: &Args) -> J {
                 if divergences.len() < 5 {
                     divergences.push(J::obj(vec![
                         ("kind", J::s("oracle")),
-                        ("signature", J::obj(vec![("kind", J::s("cache-fill-race")), ("site", J::s("ParallelStateView::db_storage vs apply_account_state"))])),
+                        ("signature", J::obj(vec![("kind", J::s("cache-fill-race")), ("site", J::s(if account_case { "ParallelStateView::db_basic vs apply_account_state" } else { "ParallelStateView::db_storage vs apply_account_state" }))])),
                         ("detail", J::s(format!("cache race case {case} ({desc}): {v}"))),
                         ("seed", J::n(seed as usize)),
                         ("case", J::n(case as usize)),
@@ -520,7 +581,8 @@ pub fn cmd_cache_race(args: &Args) -> J {
     }
     J::obj(vec![
         ("traces_conforming_to_model", J::n(model_ok)),
-        ("check", J::s("cache-race (worker-view storage reads vs ordered commit, controller schedules)")),
+        ("account_fill_cases", J::n(account_cases)),
+        ("check", J::s("cache-race (worker-view storage and account reads vs ordered commit, controller schedules)")),
         ("seed", J::n(seed as usize)),
         ("cases", J::n(cases as usize)),
         ("conforming", J::n(ok)),
